@@ -74,3 +74,58 @@ def exact_bitstring_distribution(run_fn, max_paths=4096, eps=1e-13):
 def dist_distance(a: dict, b: dict) -> float:
     keys = set(a) | set(b)
     return max(abs(a.get(k, 0.0) - b.get(k, 0.0)) for k in keys) if keys else 0.0
+
+
+# ------------------------------------------------------------------------------------------------
+# deviation-bounded depth-first exploration of environment answers (stateless: every path is replayed from scratch)
+# ------------------------------------------------------------------------------------------------
+
+
+class Chooser:
+    """Handed to the driver: every call of choose() is a choice point.  Replays `prefix`, then takes option 0 (the default)."""
+
+    def __init__(self, prefix):
+        self.prefix = list(prefix)
+        self.points = []  # (n_options, costs, chosen)
+
+    def choose(self, n_options, costs=None):
+        i = len(self.points)
+        c = self.prefix[i] if i < len(self.prefix) else 0
+        if c >= n_options:
+            raise RuntimeError(f"replay divergence at choice point {i}: option {c} of {n_options}")
+        self.points.append((n_options, list(costs) if costs is not None else [0] + [1] * (n_options - 1), c))
+        return c
+
+    @property
+    def choices(self):
+        return [p[2] for p in self.points]
+
+
+def explore_answers(run, bound, max_paths=None):
+    """
+    run(chooser) executes ONE complete path on fresh objects and returns its outcome.
+    All paths whose total deviation cost is <= bound are executed (depth-first, option 0 = default answer).
+    Yields (choices, outcome).  Raises if max_paths is exceeded (a capped run is never reported as complete).
+    """
+    stack = [[]]
+    n = 0
+    while stack:
+        prefix = stack.pop()
+        ch = Chooser(prefix)
+        outcome = run(ch)
+        n += 1
+        if max_paths is not None and n > max_paths:
+            raise RuntimeError(f"more than {max_paths} paths")
+        if ch.choices[: len(prefix)] != list(prefix):
+            raise RuntimeError("replay divergence: the prefix was not consumed as recorded")
+        yield ch.choices, outcome
+        spent = 0
+        costs_before = []
+        for (nopt, costs, c) in ch.points:
+            costs_before.append(spent)
+            spent += costs[c]
+        for i in range(len(prefix), len(ch.points)):
+            nopt, costs, c = ch.points[i]
+            for alt in range(nopt - 1, 0, -1):
+                if costs_before[i] + costs[alt] <= bound:
+                    stack.append(ch.choices[:i] + [alt])
